@@ -27,6 +27,9 @@ CHECKS = {
  "C17": ("exploration", "exhaustive product of host x port x key-variant x caps menus through constructor and parser paths, against independent three-valued IP/port recognisers",
          "Full product of a 50-host and 34-port menu plus key variants and caps; every static-key/IV length 0..40.",
          "Strings outside the menus are not enumerated; Unspecified forms only bound by the consistency clauses."),
+ "C18": ("model_checking", "stateless preemption-bounded exhaustive exploration of thread interleavings of the REAL code under a hand-written cooperative scheduler (statement-level yield points inserted into every library file by an AST instrumenter applied as a go build -overlay), with deep snapshots of receiver graph + all package-level variables; plus a per-statement mutation analysis and a separate free-running -race pass",
+         "For every structure type, every unordered pair of read-only operations on one shared value is run under every schedule with at most 1 preemption (2 where an operation was seen writing; thorough: 2 everywhere + triples); each schedule must reproduce the solo results and leave the shared snapshot unchanged. Step 1 hashes the shared snapshot at every statement of each operation, so even a transient write-and-restore is a violation. The race detector pass catches same-value writes the value oracle cannot see.",
+         "Statement-level atomicity, sequential consistency; go-i2p/crypto and logrus internals are atomic; the -race pass is sampling (secondary guard). No hook is committed to /repo: the instrumentation is regenerated from the working tree at every run."),
  "C19": ("model_checking", "differential exhaustive exploration: every pair of equivalent entry points run on the whole bounded input space (E1 + operators + byte-walk) and on the full product of constructor argument menus; builder call sequences enumerated",
          "For each of 27 parser pairs and 6 constructor pairs, both entry points are executed on every input in the bounded space that lies in the pair's stated domain and must agree on acceptance, serialisation and remainder.",
          "Domains: declared key types for type-specific readers, permitted types for wrappers; builder compared on codes <= 65535."),
@@ -77,7 +80,7 @@ def main():
           "technique":tech,
         })
     props=[json.loads(l)["id"] for l in open("/verif/properties.jsonl")]
-    na=[{"property_id":p,"reason":"check not built yet in this session (planned: bounded exhaustive exploration, see DESIGN.md section 5); not claimed until it runs clean"} for p in props if p not in CHECKS]
+    na=[{"property_id":p,"reason":"check not built yet (planned: bounded exhaustive exploration, see DESIGN.md section 5); not claimed until it runs clean"} for p in props if p not in CHECKS]
     fixes=subprocess.run(["git","-C","/repo","log","--format=%h %s","bc88f91..HEAD"],capture_output=True,text=True).stdout.strip().splitlines()
     m={
      "version":1,
@@ -92,6 +95,8 @@ def main():
      "engines":[
        {"name":"choose","path":"/verif/internal/choose","serves_properties":[],"kind_free_text":"stateless deviation-bounded exhaustive DFS over nondeterministic choices (E1)"},
        {"name":"refmodel","path":"/verif/internal/refmodel","serves_properties":sorted(CHECKS),"kind_free_text":"independent reference model of the I2P 0.9.67 structures, tables, codecs and signature schemes"},
+       {"name":"instr+vsched","path":"/verif/tools/instr","serves_properties":["C18"],"kind_free_text":"AST instrumenter (yield point before every statement, package-level variable registry) + cooperative scheduler + preemption-bounded DFS; overlay build, /repo untouched"},
+       {"name":"snap","path":"/verif/internal/snap","serves_properties":["C08","C18"],"kind_free_text":"deep reflect+unsafe snapshot of value graphs (unexported fields, spare slice capacity)"},
        {"name":"vcheck","path":"/verif/cmd/vcheck","serves_properties":sorted(CHECKS),"kind_free_text":"driver: rebuilds against /repo's working tree, runs one property's exploration, writes evidence and replay files"},
      ],
      "checks":checks,
